@@ -46,6 +46,8 @@ var importMap = map[string]string{
 	"math/rand/v2":                     "vmrand2",
 	"maps":                             "vmaps",
 	"github.com/pion/transport/v2/udp": "vudp",
+	"github.com/pion/transport/v3/udp": "vudp",
+	"github.com/pion/transport/v4/udp": "vudp",
 }
 
 var mustShim = map[string][]string{
@@ -61,6 +63,8 @@ var mustShim = map[string][]string{
 	"math/rand":                        {"Int", "Intn", "Int31", "Int31n", "Int63", "Int63n", "Uint32", "Uint64", "Float32", "Float64", "ExpFloat64", "NormFloat64", "Perm", "Shuffle", "Read", "Seed"},
 	"math/rand/v2":                     {"Int", "IntN", "Int32", "Int32N", "Int64", "Int64N", "Uint", "UintN", "Uint32", "Uint32N", "Uint64", "Uint64N", "Float32", "Float64", "ExpFloat64", "NormFloat64", "Perm", "Shuffle", "N"},
 	"github.com/pion/transport/v2/udp": {"Listen", "ListenConfig"},
+	"github.com/pion/transport/v3/udp": {"Listen", "ListenConfig"},
+	"github.com/pion/transport/v4/udp": {"Listen", "ListenConfig"},
 }
 
 // shimExports[shim dir] = exported top-level names (filled from the shim sources)
@@ -388,6 +392,49 @@ func valueImplementsSomething(t types.Type) bool {
 	return false
 }
 
+// under is Underlying() that sees through type parameters: a type parameter whose constraint
+// has a single core type (~map[K]V, ~[]E, chan T ...) behaves as that type in range, index,
+// send and receive; for every other type parameter the constraint interface is returned.
+func under(t types.Type) types.Type {
+	if t == nil {
+		return nil
+	}
+	tp, ok := types.Unalias(t).(*types.TypeParam)
+	if !ok {
+		return t.Underlying()
+	}
+	iface, ok := tp.Constraint().Underlying().(*types.Interface)
+	if !ok {
+		return t.Underlying()
+	}
+	var core types.Type
+	for i := 0; i < iface.NumEmbeddeds(); i++ {
+		switch e := iface.EmbeddedType(i).(type) {
+		case *types.Union:
+			for j := 0; j < e.Len(); j++ {
+				u := e.Term(j).Type().Underlying()
+				if core != nil && !types.Identical(core, u) {
+					return t.Underlying()
+				}
+				core = u
+			}
+		default:
+			u := e.Underlying()
+			if _, isIface := u.(*types.Interface); isIface {
+				continue
+			}
+			if core != nil && !types.Identical(core, u) {
+				return t.Underlying()
+			}
+			core = u
+		}
+	}
+	if core == nil {
+		return t.Underlying()
+	}
+	return core
+}
+
 // isNamedChan: a defined type whose underlying type is a channel.
 func isNamedChan(t types.Type) bool {
 	if t == nil {
@@ -397,7 +444,7 @@ func isNamedChan(t types.Type) bool {
 	if !ok {
 		return false
 	}
-	_, isChan := n.Underlying().(*types.Chan)
+	_, isChan := under(n).(*types.Chan)
 	return isChan
 }
 
@@ -516,7 +563,18 @@ func (r *rewriter) racePre(c *astutil.Cursor) {
 		if inner, ok := unparen(n.X).(*ast.IndexExpr); ok && isAggregate(info.TypeOf(inner)) {
 			r.skipAcc[inner] = true // a[i][j]
 		}
+	case *ast.CallExpr:
+		// len(a) / cap(a) of an array (or pointer to array) are constants: no access
+		if id, ok := n.Fun.(*ast.Ident); ok && (id.Name == "len" || id.Name == "cap") && len(n.Args) == 1 {
+			if _, isBuiltin := info.Uses[id].(*types.Builtin); isBuiltin && isArrayish(info.TypeOf(n.Args[0])) {
+				r.skipAcc[unparen(n.Args[0])] = true
+			}
+		}
 	case *ast.RangeStmt:
+		// for i := range arr (no value variable): the array is not evaluated
+		if n.Value == nil && isArrayish(info.TypeOf(n.X)) {
+			r.skipAcc[unparen(n.X)] = true
+		}
 		if n.Tok == token.ASSIGN {
 			if n.Key != nil {
 				r.accW[unparen(n.Key)] = true
@@ -540,11 +598,25 @@ func isElemContainer(t types.Type) bool {
 	return false
 }
 
+func isArrayish(t types.Type) bool {
+	if t == nil {
+		return false
+	}
+	switch u := t.Underlying().(type) {
+	case *types.Array:
+		return true
+	case *types.Pointer:
+		_, ok := u.Elem().Underlying().(*types.Array)
+		return ok
+	}
+	return false
+}
+
 func isByteSlice(t types.Type) bool {
 	if t == nil {
 		return false
 	}
-	sl, ok := t.Underlying().(*types.Slice)
+	sl, ok := under(t).(*types.Slice)
 	if !ok {
 		return false
 	}
@@ -570,13 +642,13 @@ func (r *rewriter) classifyRaceCall(n *ast.CallExpr, out map[*ast.CallExpr]strin
 				}
 			case "clear":
 				if len(n.Args) == 1 {
-					if _, ok := info.TypeOf(n.Args[0]).Underlying().(*types.Slice); ok {
+					if _, ok := under(info.TypeOf(n.Args[0])).(*types.Slice); ok {
 						out[n] = "clear"
 					}
 				}
 			case "append":
 				if len(n.Args) >= 2 {
-					if _, ok := info.TypeOf(n.Args[0]).Underlying().(*types.Slice); !ok {
+					if _, ok := under(info.TypeOf(n.Args[0])).(*types.Slice); !ok {
 						return
 					}
 					if n.Ellipsis.IsValid() {
@@ -639,14 +711,14 @@ func (r *rewriter) applyRaceCall(c *astutil.Cursor, n *ast.CallExpr, kind string
 		c.Replace(call(r.vmc("CopyStr"), n.Args[0], n.Args[1], site))
 	case "clear":
 		c.Replace(call(r.vmc("Clear"), n.Args[0], site))
-	case "append":
-		c.Replace(call(r.vmc("Append"), append([]ast.Expr{site}, n.Args...)...))
-	case "appendslice":
-		nc := call(r.vmc("Append"), append([]ast.Expr{site}, n.Args...)...)
-		nc.Ellipsis = 1
-		c.Replace(nc)
-	case "appendstr":
-		c.Replace(call(r.vmc("AppendStr"), site, n.Args[0], n.Args[1]))
+	case "append", "appendslice", "appendstr":
+		// vmc.Appended(site, s, append(s, ...)): the slice operand is evaluated twice, so only
+		// operands without calls / receives are instrumented (the builtin itself is kept: its
+		// typing rules - untyped constants, interface elements, string spread - are not those of
+		// a generic function)
+		if simpleOperand(n.Args[0]) {
+			c.Replace(call(r.vmc("Appended"), site, n.Args[0], n))
+		}
 	case "w2", "w4", "w8", "r2", "r4", "r8":
 		fn := "WSn"
 		if kind[0] == 'r' {
@@ -658,6 +730,46 @@ func (r *rewriter) applyRaceCall(c *astutil.Cursor, n *ast.CallExpr, kind string
 	case "iowrite":
 		n.Args[0] = call(r.vmc("RS"), n.Args[0], site)
 	}
+}
+
+// simpleOperand: identifiers, selectors, index and slice expressions, dereferences, parentheses
+// of such, with constant or simple indices: evaluating it twice has no effect.
+func simpleOperand(e ast.Expr) bool {
+	switch x := e.(type) {
+	case *ast.Ident, *ast.BasicLit:
+		return true
+	case *ast.SelectorExpr:
+		return simpleOperand(x.X)
+	case *ast.ParenExpr:
+		return simpleOperand(x.X)
+	case *ast.StarExpr:
+		return simpleOperand(x.X)
+	case *ast.IndexExpr:
+		return simpleOperand(x.X) && simpleOperand(x.Index)
+	case *ast.SliceExpr:
+		for _, p := range []ast.Expr{x.Low, x.High, x.Max} {
+			if p != nil && !simpleOperand(p) {
+				return false
+			}
+		}
+		return simpleOperand(x.X)
+	case *ast.BinaryExpr:
+		return simpleOperand(x.X) && simpleOperand(x.Y)
+	case *ast.UnaryExpr:
+		return x.Op != token.ARROW && simpleOperand(x.X)
+	case *ast.CallExpr:
+		// len(x) / cap(x) of a simple operand
+		if id, ok := x.Fun.(*ast.Ident); ok && (id.Name == "len" || id.Name == "cap") && len(x.Args) == 1 {
+			return simpleOperand(x.Args[0])
+		}
+		// the access recorders the rewriter itself has already put around a field / variable
+		for _, fn := range []string{"R", "W", "MR", "MW"} {
+			if isVmcSel(x.Fun, fn) && len(x.Args) >= 1 {
+				return simpleOperand(x.Args[0])
+			}
+		}
+	}
+	return false
 }
 
 // raceWrap wraps an addressable expression: (*vmc.R(&e, site)) / (*vmc.W(&e, site))
@@ -709,7 +821,7 @@ func (r *rewriter) run() bool {
 		if t == nil {
 			return
 		}
-		mt, ok := t.Underlying().(*types.Map)
+		mt, ok := under(t).(*types.Map)
 		if !ok {
 			return
 		}
@@ -737,7 +849,7 @@ func (r *rewriter) run() bool {
 				}
 			case *ast.IndexExpr:
 				if t := info.TypeOf(n.X); t != nil {
-					if _, ok := t.Underlying().(*types.Map); ok {
+					if _, ok := under(t).(*types.Map); ok {
 						raceMap[n] = t
 					}
 					if isElemContainer(t) {
@@ -791,7 +903,7 @@ func (r *rewriter) run() bool {
 		case *ast.CompositeLit:
 			// map literal with non-basic keys: the keys enter a map
 			if t := info.TypeOf(n); t != nil {
-				if mt, ok := t.Underlying().(*types.Map); ok {
+				if mt, ok := under(t).(*types.Map); ok {
 					if _, basic := mt.Key().Underlying().(*types.Basic); !basic {
 						mapLits[n] = true
 					}
@@ -841,7 +953,7 @@ func (r *rewriter) run() bool {
 				if id, ok := n.Fun.(*ast.Ident); ok && len(n.Args) >= 1 {
 					if _, isBuiltin := info.Uses[id].(*types.Builtin); isBuiltin {
 						if t := r.argType[n]; t != nil {
-							if _, isMap := t.Underlying().(*types.Map); isMap {
+							if _, isMap := under(t).(*types.Map); isMap {
 								switch id.Name {
 								case "delete":
 									n.Args[0] = call(r.vmc("MW"), n.Args[0], r.site(n))
@@ -931,7 +1043,7 @@ func (r *rewriter) run() bool {
 					}
 				case "close", "len", "cap":
 					if t, ok := r.argType[n]; ok && t != nil {
-						if _, isChan := t.Underlying().(*types.Chan); isChan {
+						if _, isChan := under(t).(*types.Chan); isChan {
 							m := map[string]string{"close": "Close", "len": "Len", "cap": "Cap"}[id.Name]
 							c.Replace(method(n.Args[0], m))
 							r.changed = true
@@ -991,7 +1103,7 @@ func (r *rewriter) run() bool {
 			if t == nil {
 				break
 			}
-			switch t.Underlying().(type) {
+			switch under(t).(type) {
 			case *types.Chan:
 				c.Replace(r.rewriteRangeChan(n))
 				r.changed = true
